@@ -20,6 +20,8 @@ from . import pyops as P
 def as_seq(ex, v):
     """Return python list (concrete spine) or Sym of kind Seq."""
     run = ex.run
+    if isinstance(v, GenView):
+        return v.materialise(ex)
     if isinstance(v, (tuple, list)):
         return list(v)
     if isinstance(v, Sym):
@@ -297,7 +299,9 @@ def merge_eval(ex, thunk):
                 v = thunk()
                 results.append((sub.pc[base_pc_len:], 'ret', v))
             except RaiseEx as r:
-                results.append((sub.pc[base_pc_len:], 'raise', r.exc))
+                # branches are not pruned eagerly in merged evaluation: check this raising arm now
+                if sub.feasible([]):
+                    results.append((sub.pc[base_pc_len:], 'raise', r.exc))
             except PathEnd as p:
                 if p.kind != 'infeasible':
                     raise OutOfSubset(f'path end {p.kind} inside merged evaluation')
@@ -429,12 +433,26 @@ def comprehension(ex, node, fr, flavour):
                 body = z3.Implies(z3.substitute(guard, (x.t, s.t[i_])), body)
             ex.run.assume(P.forall([i_], z3.Implies(z3.And(i_ >= 0, i_ < z3.Length(s.t)), body), patterns=[s.t[i_]]))
     lam = Lam([x], val, guard)
+    if flavour == 'gen':
+        return GenView(s, lam)
     r = filter_map(ex, s, lam)
     if flavour == 'dict':
         return seq_to_dict(ex, r)
     if flavour == 'set':
         raise OutOfSubset('symbolic set comprehension')
     return ex.run.alloc(HList(sym=r))
+
+
+class GenView:
+    """A generator expression over a symbolic sequence, not yet materialised: any()/all() turn it into a
+    quantified term over the source sequence; every other consumer materialises the filter-map."""
+
+    def __init__(self, s, lam):
+        self.s = s
+        self.lam = lam
+
+    def materialise(self, ex):
+        return filter_map(ex, self.s, self.lam)
 
 
 def comprehension_concrete(ex, node, fr, flavour, items):
@@ -581,6 +599,33 @@ def seq_to_dict(ex, pairs):
 
 def any_all(ex, v, is_any):
     run = ex.run
+    if isinstance(v, GenView):
+        # all(p(x) for x in xs if g(x))  ==  forall i. 0 <= i < len(xs) and g(xs[i]) => p(xs[i])   (a pure term)
+        if v.lam.value.kind != K.Bool:
+            raise OutOfSubset('any/all over non-bool generator')
+        # any/all over a snoc  xs ++ [e]  ==  (any/all over xs) or/and p(e)   (exact)
+        decs = snoc_decompositions(v.s.t)
+        if decs:
+            a, e = decs[0]
+            rest = any_all(ex, GenView(Sym(v.s.kind, a), v.lam), is_any)
+            vt_e, g_e = v.lam.at(ex, e)
+            pe = vt_e if g_e is None else (z3.And(g_e, vt_e) if is_any else z3.Implies(g_e, vt_e))
+            rt = rest.t if isinstance(rest, Sym) else z3.BoolVal(bool(rest))
+            return Sym(K.Bool, z3.Or(rt, pe) if is_any else z3.And(rt, pe))
+        if z3.is_app(v.s.t) and v.s.t.decl().kind() == z3.Z3_OP_SEQ_EMPTY:
+            return not is_any
+        # the bound variable is named after the content so that equal quantified terms are identical terms
+        import hashlib
+        hk = hashlib.sha256((v.s.t.sexpr() + '|' + comb_key(ex, v.lam.bound, v.lam.value) + '|' +
+                             (comb_key(ex, v.lam.bound, Sym(K.Bool, v.lam.guard)) if v.lam.guard is not None else '')).encode()).hexdigest()[:10]
+        i = z3.Int(f'q_{hk}')
+        vt, g = v.lam.at(ex, v.s.t[i])
+        rng = z3.And(i >= 0, i < z3.Length(v.s.t))
+        if g is not None:
+            rng = z3.And(rng, g)
+        if is_any:
+            return Sym(K.Bool, z3.Exists([i], z3.And(rng, vt)))
+        return Sym(K.Bool, z3.ForAll([i], z3.Implies(rng, vt)))
     s = as_seq(ex, v)
     if isinstance(s, list):
         for it in s:
